@@ -59,6 +59,27 @@ def determineNK (periodic : Bool × Bool × Bool) (nkdiv nkfft nk : Option Idx) 
   | _, some f, some n => some (mask (r n.1 f.1, r n.2.1 f.2.1, r n.2.2 f.2.2), mask f)
   | _, _, _ => none
 
+/-! ### which grids are accepted -/
+
+/-- `PointGroup.symmetric_grid(nk)`: every symmetry maps the lattice `b_i / nk_i` to itself, i.e. in reduced
+    coordinates `M_ij * nk_j / nk_i` is an integer for all i, j (the sign from inversion / time reversal is irrelevant) -/
+def symmetricGrid (syms : List Sym) (n : Idx) : Bool :=
+  syms.all fun s =>
+    decide ((s.m11 * n.1) % (n.1 : Int) = 0) && decide ((s.m12 * n.2.1) % (n.1 : Int) = 0) &&
+    decide ((s.m13 * n.2.2) % (n.1 : Int) = 0) &&
+    decide ((s.m21 * n.1) % (n.2.1 : Int) = 0) && decide ((s.m22 * n.2.1) % (n.2.1 : Int) = 0) &&
+    decide ((s.m23 * n.2.2) % (n.2.1 : Int) = 0) &&
+    decide ((s.m31 * n.1) % (n.2.2 : Int) = 0) && decide ((s.m32 * n.2.1) % (n.2.2 : Int) = 0) &&
+    decide ((s.m33 * n.2.2) % (n.2.2 : Int) = 0)
+
+/-- the acceptance rule of `determineNK`: EACH of the grids that the caller specifies (NKdiv, NKFFT, NK) must be
+    symmetric on its own - a symmetric total grid `NKdiv * NKFFT` is not enough -/
+def acceptNK (syms : List Sym) (nkdiv nkfft nk : Option Idx) : Bool :=
+  let ok (o : Option Idx) : Bool := match o with
+    | none => true
+    | some n => symmetricGrid syms n
+  ok nkdiv && ok nkfft && ok nk
+
 /-! ### the folded FFT of one direction, for any "phase" function `pw n = ζ^n` into a commutative semiring -/
 
 /-- what `FFT_R_to_k` computes for FFT point `m`, box size `f`, K-shift `x` (in units of `1/(d f)`):
@@ -100,6 +121,14 @@ def handle : List String → String
   | ["dkfull", dk, fft] =>
     match parseV3? dk, parseIdx? fft with
     | some d, some f => showV3s [dKFullBZ d f]
+    | _, _ => "bad-op"
+  | ["accept", syms, nkdiv, nkfft, nk] =>
+    match parseSyms? syms, parseOptIdx? nkdiv, parseOptIdx? nkfft, parseOptIdx? nk with
+    | some s, some a, some b, some c => showBool (acceptNK s a b c)
+    | _, _, _, _ => "bad-op"
+  | ["symgrid", syms, n] =>
+    match parseSyms? syms, parseIdx? n with
+    | some s, some n => showBool (symmetricGrid s n)
     | _, _ => "bad-op"
   | ["detnk", per, nkdiv, nkfft, nk] =>
     match parseB3? per, parseOptIdx? nkdiv, parseOptIdx? nkfft, parseOptIdx? nk with
